@@ -14,6 +14,8 @@
 //!   errs   the errors returned by that stage (observed in the extension hooks), sorted, deduplicated
 //!   RAN    number of field resolutions (Extension::resolve calls)
 //!   later  messages of the response errors when validation accepted
+//! A case line that is not a C09 case (the witness of a finding of another property listed with
+//! `"also": ["C09"]`) is answered with `(foreign)` and skipped by the judge.
 
 use std::sync::{Arc, Mutex};
 
@@ -121,6 +123,12 @@ fn gen_case(rng: &mut Rng, i: usize, _o: &Opts, dist: &mut Dist) -> Sexp {
 
 fn run(case: &Sexp, dist: &mut Dist) -> Sexp {
     let a = case.args();
+    if a.len() != 5 || a[0].tag() != Some("vschema") {
+        // the witness of a finding owned by another property and shared through `"also": ["C09"]`
+        // comes in that property's case format; it is replayed there, C09 has its own corpus case
+        dist.hit("foreign_witness_skipped");
+        return node("foreign", vec![]);
+    }
     let opname = a[2].as_str().map(|s| s.to_string());
     let vars = vars_from_sexp(&a[3]);
     let text = a[4].as_str().unwrap();
